@@ -121,12 +121,7 @@ func Weaken(r *rng.R, v cty.Value, pct int, allowTop bool) cty.Value {
 		if len(p) == 0 && r.Chance(15) {
 			return cty.DynamicVal.WithMarks(ms), nil
 		}
-		free := true
-		for _, st := range p {
-			if _, ok := st.(cty.GetAttrStep); !ok {
-				free = false // below a collection every member must keep its exact type
-			}
-		}
+		free := typeFreeAlong(v.Type(), p) // below a list, set or map every member must keep its exact type
 		if ty := u.Type(); free && !ty.IsPrimitiveType() && !ty.IsCapsuleType() && ty != cty.DynamicPseudoType && r.Chance(25) {
 			// an unknown whose type constraint is itself only partly known: placeholders inside the type
 			g := GeneraliseType(r, ty, 45)
@@ -307,4 +302,31 @@ func GeneraliseType(r *rng.R, ty cty.Type, pct int) cty.Type {
 		return t
 	}
 	return rec(ty, true)
+}
+
+// typeFreeAlong: the member at path p (from a value of type root) sits below objects and tuples only, so its
+// type can be changed without touching the type of a sibling
+func typeFreeAlong(root cty.Type, p cty.Path) bool {
+	t := root
+	for _, st := range p {
+		switch s := st.(type) {
+		case cty.GetAttrStep:
+			if !t.IsObjectType() || !t.HasAttribute(s.Name) {
+				return false
+			}
+			t = t.AttributeType(s.Name)
+		case cty.IndexStep:
+			if !t.IsTupleType() || !s.Key.IsKnown() || s.Key.Type() != cty.Number {
+				return false
+			}
+			i, _ := s.Key.AsBigFloat().Int64()
+			if i < 0 || int(i) >= t.Length() {
+				return false
+			}
+			t = t.TupleElementType(int(i))
+		default:
+			return false
+		}
+	}
+	return true
 }
